@@ -216,6 +216,8 @@ def _remove_variants(doc, item_idx, field_idxs):
 
 
 def enabled(doc, op):
+    if must_reject(doc, op):
+        return True
     t = op[0]
     if t == "append":
         return True
@@ -250,6 +252,37 @@ def enabled(doc, op):
     else:
         ref = ro[ridx]
     return ref not in moved
+
+
+INVALID_VALUES = ("x\ny", "x\n\n y")
+
+
+def must_reject(doc, op):
+    """operations the implementation has to refuse (or may refuse): an assignment whose value is not a valid field
+    value, or an operation naming an absent field / absent reference / out-of-range occurrence / itself.
+    If the implementation raises, the document must be what it was."""
+    t = op[0]
+    if t in ("append", "insert", "sort"):
+        return False
+    ps = pars(doc)
+    if op[1] >= len(ps):
+        return False
+    if t == "set":
+        return op[3] in INVALID_VALUES
+    par = ps[op[1]]
+    name, idx = _key(op[2])
+    o = occ(par, name)
+    if not o or (idx is not None and idx >= len(o)):
+        return True
+    if t in ("before", "after"):
+        rname, ridx = _key(op[3])
+        ro = occ(par, rname)
+        if not ro or (ridx is not None and ridx >= len(ro)):
+            return True
+        moved = o if idx is None else [o[idx]]
+        ref = (ro[0] if t == "before" else ro[-1]) if ridx is None else ro[ridx]
+        return ref in moved
+    return False
 
 
 def step(doc, op, new_par_fields=None):
@@ -490,6 +523,8 @@ def op_kind(doc, op):
 
 
 def outcome_class(doc, op):
+    if must_reject(doc, op):
+        return op[0] + "/refused"
     k = op_kind(doc, op)
     if k in ("set", "add", "set-indexed"):
         k += "/multi-line" if "\n" in op[3] else "/single-line"
@@ -500,6 +535,26 @@ def outcome_class(doc, op):
 
 def check_step(f, doc, op):
     """apply op to the live file object f and to the model doc -> (new doc | None, [(sig, expected, observed)])"""
+    if must_reject(doc, op):
+        try:
+            apply_impl(f, op)
+        except Exception as e:
+            try:
+                dump = f.dump()
+            except Exception as e2:
+                return None, [("doc/%s-refused/dump-raises" % op[0], "document unchanged", "%s: %s" % (type(e2).__name__, e2))]
+            nd, _why = match([(doc, None)], dump, check_step.nl_liberty)
+            if nd is None:
+                return None, [("doc/%s-refused/document-changed" % op[0],
+                               "document unchanged after %s" % type(e).__name__, dump)]
+            bad = live_check(f, nd)
+            if bad:
+                return None, [("doc/%s-refused/%s" % (op[0], bad[0]), bad[1], bad[2])]
+            view, err = impl_view_fresh(dump)
+            if err or view != model_view(nd):
+                return None, [("doc/%s-refused/reparse" % op[0], model_view(nd), view)]
+            return nd, []
+        return None, []          # accepted although it could have been refused: behaviour not in the statement
     newf = None
     try:
         if op[0] in ("insert", "append"):
@@ -553,6 +608,8 @@ def run_history(spec, history, nl_liberty):
         doc, bad = check_step(f, doc, op)
         if bad:
             return None, bad
+        if doc is None:
+            return None, []
     return doc, []
 
 
@@ -561,7 +618,10 @@ def run_last(spec, prefix, doc_before, op, nl_liberty):
     check_step.nl_liberty = nl_liberty
     f = parse_impl(render(from_spec(spec)))
     for p in prefix:
-        apply_impl(f, p)
+        try:
+            apply_impl(f, p)
+        except Exception:
+            pass              # a refused operation of the (already verified) prefix
     return check_step(f, doc_before, op)
 
 
@@ -593,6 +653,9 @@ def explore(part, spec, ops_fn, tree_depth, graph_depth, nl_liberty, base_case, 
                 for sig, exp, obs in viol:
                     part.violation(sig, dict(base_case, history=h2), exp, obs, rank=len(h2))
                 continue
+            if nd is None:
+                part.outcomes[op[0] + "/outside-statement"] += 1
+                continue
             part.outcomes[outcome_class(doc, op)] += 1
             seen.add(repr(to_spec(nd)))
             if len(h2) < tree_depth:
@@ -618,6 +681,8 @@ def explore(part, spec, ops_fn, tree_depth, graph_depth, nl_liberty, base_case, 
                     if viol:
                         for sig, exp, obs in viol:
                             part.violation(sig, dict(base_case, history=h2), exp, obs, rank=len(h2))
+                        continue
+                    if nd is None:
                         continue
                     part.outcomes[outcome_class(doc, op)] += 1
                     k = repr(to_spec(nd))
